@@ -150,12 +150,25 @@ Definition impl_parse_bigint (s : str) : outcome :=
   | None => opt_val VBig (from_str_radix true i128_min i128_max 10 s)
   end.
 
-(* StrParseIntRadix / StrParseBigintRadix: prefix dropped; radix try_into u32 (Err);
+(* StrParseIntRadix / StrParseBigintRadix at HEAD: prefix dropped WHATEVER the radix; radix try_into u32 (Err);
    from_str_radix asserts 2 <= radix <= 36 before reading anything (Panic) *)
-Definition impl_parse_radix (mk : Z -> val) (lo hi : Z) (s : str) (radix : Z) : outcome :=
+Definition impl_parse_radix_head (mk : Z -> val) (lo hi : Z) (s : str) (radix : Z) : outcome :=
   let s := match strip_0x s with Some t => t | None => s end in
   if radix <? 0 then Err else
   if (radix <? 2) || (36 <? radix) then Panic else
+  opt_val mk (from_str_radix true lo hi (Z.to_N radix) s).
+Definition impl_parse_int_radix_head := impl_parse_radix_head VInt i32_min i32_max.
+Definition impl_parse_bigint_radix_head := impl_parse_radix_head VBig i128_min i128_max.
+(* repaired (fixes/c17-radix-range.diff: the range of the radix is checked first, bail!;
+   fixes/c14-radix-0x-prefix.diff: `Some(hex) if radix == 16 => hex, _ => s`): the prefix announces
+   hexadecimal digits and is dropped for radix 16 only *)
+Definition impl_parse_radix (mk : Z -> val) (lo hi : Z) (s : str) (radix : Z) : outcome :=
+  if radix <? 0 then Err else
+  if (radix <? 2) || (36 <? radix) then Err else
+  let s := match strip_0x s with
+           | Some hex => if radix =? 16 then hex else s
+           | None => s
+           end in
   opt_val mk (from_str_radix true lo hi (Z.to_N radix) s).
 Definition impl_parse_int_radix := impl_parse_radix VInt i32_min i32_max.
 Definition impl_parse_bigint_radix := impl_parse_radix VBig i128_min i128_max.
